@@ -36,6 +36,7 @@ import (
 	"os"
 	"path/filepath"
 	"regexp"
+	"runtime"
 	"sort"
 	"strings"
 
@@ -111,6 +112,9 @@ func genCases(seed int64, tier string) []core.Case {
 var chartEntries = []string{"LoadArchive", "LoadArchiveFiles", "Expand", "ExpandFile", "Extract"}
 
 func run(c core.Case, verbose bool) core.Result {
+	// 16 worker processes run side by side and each is essentially sequential: do not let every one
+	// of them spin up a 16-way Go scheduler
+	runtime.GOMAXPROCS(4)
 	log.SetOutput(io.Discard)
 	var d caseData
 	core.U(c, &d)
@@ -216,7 +220,39 @@ func savedPackage() []byte {
 	must(err)
 	b, err := os.ReadFile(p)
 	must(err)
-	return b
+	return gz(normalizeMtime(gunzip(b)))
+}
+
+// normalizeMtime overwrites the mtime field of every tar header (chartutil.Save stamps
+// time.Now()) and recomputes the checksums, so that the package the byte mutants start from is
+// the same in every run and replays reproduce exactly.
+func normalizeMtime(t []byte) []byte {
+	for off := 0; off+512 <= len(t); {
+		h := t[off : off+512]
+		zero := true
+		for _, c := range h {
+			if c != 0 {
+				zero = false
+				break
+			}
+		}
+		if zero {
+			break
+		}
+		var size int64
+		fmt.Sscanf(strings.TrimRight(string(h[124:135]), "\x00 "), "%o", &size)
+		copy(h[136:148], "14524432400\x00")
+		for i := 148; i < 156; i++ {
+			h[i] = ' '
+		}
+		var sum int64
+		for _, c := range h {
+			sum += int64(c)
+		}
+		copy(h[148:156], fmt.Sprintf("%06o\x00 ", sum))
+		off += 512 + int((size+511)/512*512)
+	}
+	return t
 }
 
 var nameField = regexp.MustCompile(`[^\x00]*`)
